@@ -220,8 +220,8 @@ type vC08LPinIn struct {
 	Mode   int        `json:"mode"`
 	Shard  uint64     `json:"shard"`
 	UA     []int      `json:"ua"`
-	Exp    []int64    `json:"exp"`  // [] = zero time, [sec, nsec]
-	Meta   [][][]byte `json:"meta"` // list of [key, value]
+	Exp    []int64    `json:"exp"`    // [] = zero time, [sec, nsec]
+	Meta   [][][]byte `json:"meta"`   // list of [key, value]
 	Update int        `json:"update"` // cid index, -1 = undefined
 	Orig   []int      `json:"orig"`
 	Cid    int        `json:"cid"` // -1 = undefined
